@@ -162,6 +162,7 @@ def dispatch(pid, tier, replay):
             except Exception:  # noqa
                 pass
 
+        t_start = time.time()
         p = subprocess.Popen(cmd, env=env, start_new_session=True, preexec_fn=_die_with_parent)
         try:
             rc = p.wait(timeout=limit)
@@ -173,6 +174,14 @@ def dispatch(pid, tier, replay):
             except OSError:
                 pass
         if rc is None:
+            # violations the engine witnessed (and printed, with their replay files) before it got
+            # stuck stay violations: only a run that showed nothing is inconclusive
+            import glob as _glob
+            seen = [f for f in _glob.glob(os.path.join(VERIF, "replays", pid, "%s-%s-*.json" % (tier, os.environ.get("VERIF_SEED", "1"))))
+                    if os.path.getmtime(f) >= t_start - 1]
+            if seen and not replay:
+                print("NOTE property=%s the check exceeded its time limit of %d s after reporting %d violation(s)" % (pid, limit, len(seen)))
+                return 1
             print("INCONCLUSIVE property=%s reason=check exceeded its time limit of %d s" % (pid, limit))
             return 2
         if rc not in (0, 1, 2):
